@@ -61,7 +61,8 @@ var commands = map[string]func([]string) int{}
 
 // cmdWitnesses runs the witnesses (all, or those serving the given property)
 // each in its own child process and prints one line per witness:
-//   W <id> ok|DEFECT|CRASH <detail>
+//
+//	W <id> ok|DEFECT|CRASH <detail>
 func cmdWitnesses(args []string) int {
 	prop := ""
 	if len(args) > 0 {
